@@ -459,7 +459,7 @@ def run(ctx: core.Ctx):
         shards += [(c, bound, opcode, cap) for c in chunks(hs, 64)]
         ctx.counters.setdefault("preemption_bounds", []).append(
             {"harnesses": len(hs), "bound": bound, "opcode_granularity": opcode, "schedule_cap_per_harness": cap})
-    ctx.pmap(conc_shard, shards)
+    ctx.pmap(conc_shard, shards, pin=True)
     if ctx.counters.get("schedule_caps_hit"):
         ctx.cap_hit(f"{ctx.counters['schedule_caps_hit']} opcode-granularity harnesses stopped at their per-harness schedule cap")
     ctx.cov["states"] = ctx.counters.get("states", 0)
